@@ -558,10 +558,17 @@ def rule_next_nfac(prog: Program, col: Collector) -> None:
                     bad = (e, f"a coalition without the owner is stored with {short(val, 50)}")
             elif g == 0:
                 # unguarded store: the value itself must select the literal 0 for non-owner coalitions
-                ok_sel = False
-                if val[0] == "ifexp":
-                    o = owner_test(val[1])
-                    ok_sel = (o == 1 and val[3] == ("const", 0)) or (o == -1 and val[2] == ("const", 0))
+                def without_owner(v) -> set:
+                    """The values ``v`` can take for a coalition without the owner (conditional expressions / branch-assigned names resolved)."""
+                    if v[0] in ("ifexp", "phi"):
+                        o = owner_test(v[1])
+                        if o == 1:
+                            return without_owner(v[3])
+                        if o == -1:
+                            return without_owner(v[2])
+                        return without_owner(v[2]) | without_owner(v[3])
+                    return {v}
+                ok_sel = val[0] in ("ifexp", "phi") and without_owner(val) == {("const", 0)}
                 if ok_sel:
                     zero_ok = True
                 else:
